@@ -3,6 +3,7 @@ import Model.Storage.Query
 import Model.Storage.Fmt
 import Model.Storage.Lex
 import Model.Analysis.Quote
+import Model.Analysis.Parse
 import Model.Spec.Storage
 
 namespace Driver.C19
@@ -199,19 +200,36 @@ def handleHist (l : Line) : IO Unit := do
       IO.println s!"spec {id} l{j} res={want}"
     j := j + 1
 
+def wordsStr (ws : List Bytes) : String :=
+  if ws.isEmpty then "_" else "+".intercalate (ws.map Bytes.toHex)
+
+def sentStr (qs : List (List Bytes)) : String :=
+  if qs.isEmpty then "-" else ";".intercalate (qs.map wordsStr)
+
 def handleSW (l : Line) : IO Unit := do
   let q := (l.bytes? "q").getD []
   let add := (l.bytes? "add").getD []
   let words := splitWords q
   let atq := Analysis.Quote.addToQuery q add
   let back := splitWords atq
-  IO.println s!"obs {l.id} words={showHexList words} atq={atq.toHex} back={showHexList back}"
+  let (p0, g0) := Analysis.Parse.parseQueryString q
+  let (p1, g1) := Analysis.Parse.parseQueryString atq
+  IO.println s!"obs {l.id} words={showHexList words} atq={atq.toHex} back={showHexList back} pq={p0.toHex}/{showHexList g0} pqa={p1.toHex}/{showHexList g1}"
+  let modelSent := (Analysis.Parse.sentQueries atq).map splitWords
   -- the added word comes back as the first word; the old query's words follow, after a "|" if it had none
   let hasBar := q.any (· == 124)
-  if add.isEmpty then
-    IO.println s!"spec {l.id} first={match back with | w :: _ => w.toHex | [] => "-"} n={(back.length : Int) - words.length}"
+  if add.isEmpty || add == Analysis.Parse.wBar || add == Analysis.Parse.wVs then
+    IO.println s!"spec {l.id} first={match back with | w :: _ => w.toHex | [] => "-"} n={(back.length : Int) - words.length} sent={sentStr modelSent}"
   else
-    IO.println s!"spec {l.id} first={add.toHex} n={if hasBar then 1 else 2}"
+    -- Specification of the chain addToQuery → parseQueryString → SplitWords: the builder's word must
+    -- behave exactly like ONE ordinary unquoted word put in front of the old query. `stand` is such a
+    -- word (bytes 0x01, longer than anything in `q`); the expected words are those of the front end's
+    -- splitter on `stand q` resp. `stand | q`, with `stand` read as `add`.
+    let stand : Bytes := List.replicate (q.length + 3) 1
+    let plain := if hasBar then stand ++ [32] ++ q else stand ++ [32, 124, 32] ++ q
+    let want := (Analysis.Parse.sentQueries plain).map fun s =>
+      (splitWords s).map fun w => if w == stand then add else w
+    IO.println s!"spec {l.id} first={add.toHex} n={if hasBar then 1 else 2} sent={sentStr want}"
 
 def handle (l : Line) : IO Unit := do
   if l.kind != "case" then return
